@@ -415,7 +415,7 @@ func (g *vGen) genSave(first bool) []vOp {
 		switch {
 		case k == 0 || len(g.pods) == 0:
 			p, pr := g.genPod()
-			ops = append(ops, vOp{Kind: "insert_pod", Pod: p, PodRes: pr})
+			ops = append(ops, vOp{Kind: "insert_pod", Pod: p, PodRes: pr, N: int64(g.r.Intn(2))})
 		case k <= 3 || id == "":
 			op := vOp{Kind: "insert_ctr", Ctr: g.genCtr(g.livePod())}
 			if g.r.Intn(3) == 0 {
@@ -583,9 +583,16 @@ func applyOp(cch *cache, op vOp) error {
 	}
 	switch op.Kind {
 	case "insert_pod":
-		p := cch.InsertPod(op.Pod, nil).(*pod)
-		if op.PodRes != nil {
-			p.setPodResources(&podresapi.PodResources{PodResources: op.PodRes})
+		if op.PodRes != nil && op.N == 1 {
+			// the agent's asynchronous fetch: delivered on a channel, received by GetPodResources
+			ch := make(chan *podresapi.PodResources, 1)
+			ch <- &podresapi.PodResources{PodResources: op.PodRes}
+			cch.InsertPod(op.Pod, ch).GetPodResources()
+		} else {
+			p := cch.InsertPod(op.Pod, nil).(*pod)
+			if op.PodRes != nil {
+				p.setPodResources(&podresapi.PodResources{PodResources: op.PodRes}) // RefreshPods path
+			}
 		}
 	case "insert_ctr":
 		var opts []InsertContainerOption
